@@ -269,6 +269,34 @@ def strip_spec(toks, decor, parse):
     return clean, desc, ez, ann
 
 
+# ------------------------------------------------------------------ texts for the pysmiles model
+SM_ELEMENTS = ['C', 'N', 'O', 'H', 'Cl', 'Br', 'Si', 'Na', 'Fe', 'Mg', 'c', 'n', 'o', 's', 'p', 'b', 'se', 'as', '*', 'Se',
+               'Uuo', 'S', 'P', 'B', 'F', 'I', 'Xx', 'cl', 'K', 'Zn']
+SM_STEREO = ['', '', '', '@', '@@', '@TH1', '@TH2', '@AL1', '@SP3', '@OH12', '@TB7', '@TH3', '@OH', '@@@']
+SM_HCOUNT = ['', '', 'H', 'H2', 'H3', 'H0', 'H12', 'h']
+SM_CHARGE = ['', '', '+', '-', '++', '--', '+2', '-1', '+12', '-123', '+-', '-+', '+++', '+0']
+SM_CLASS = ['', '', '', ':1', ':12', ':', ':a']
+
+
+def rand_bracket_text(rng):
+    """a bracket atom in the grammar of ATOM_PATTERN (with some strings just outside it)"""
+    iso = rng.choice(['', '', '', '13', '2', '007'])
+    return '[' + iso + rng.choice(SM_ELEMENTS) + rng.choice(SM_STEREO) + rng.choice(SM_HCOUNT) + \
+        rng.choice(SM_CHARGE) + rng.choice(SM_CLASS) + ']'
+
+
+def smiles_tok(t, keep_slash=True):
+    """the text pysmiles sees: no annotations (and no slash marks in the clean text of strip)"""
+    if t[0] == 'K':
+        return '[' + t[1] + ']'
+    if t[0] == '/':
+        return render_tok(t) if keep_slash else ''
+    return render_tok(t)
+
+
+SM_ALPHABET = '[]()=#.-:$%0123456789CNOHclBrSi/\\+@ *bnos'
+
+
 MUT_ALPHABET = '[]()$><!;=#.-:%0123456789CNOHclBrSi/\\|+@ aAw,x{}'
 
 
@@ -329,6 +357,52 @@ REPO_TEST_TEXTS = [
 ]
 
 
+class _Reached(Exception):
+    """read_smiles reached fill_valence: the graph carries parse_atom's attributes and the bond orders"""
+
+
+NODE_KEYS = ('element', 'charge', 'aromatic', 'hcount', 'isotope', 'class', 'rs_isomer')
+
+
+def run_pysmiles(text):
+    import importlib
+    import logging
+    prs = importlib.import_module('pysmiles.read_smiles')
+    logging.getLogger('pysmiles').setLevel(logging.CRITICAL)
+    out = {}
+    try:
+        mol, ez, _ = prs.base_smiles_parser(text, strict=False, node_attr='_atom_str', edge_attr='_bond_str')
+        out['base'] = {'atoms': [mol.nodes[i]['_atom_str'] for i in range(len(mol))],
+                       'edges': [[u, v, d['_bond_str'] or None] for u, v, d in mol.edges(data=True)],
+                       'ez': [[k, v] for k, v in ez.items()]}
+        if sorted(mol.nodes) != list(range(len(mol))):
+            out['base'] = {'exc': 'node keys are not 0..n-1'}
+    except Exception as exc:
+        out['base'] = {'exc': type(exc).__name__}
+
+    def stop(mol):
+        raise _Reached(mol)
+    saved = prs.fill_valence
+    prs.fill_valence = stop
+    try:
+        prs.read_smiles(text, explicit_hydrogen=True, reinterpret_aromatic=False, strict=False)
+        out['full'] = {'exc': 'fill_valence not reached'}
+    except _Reached as r:
+        mol = r.args[0]
+        nodes = []
+        for i in range(len(mol)):
+            d = {k: v for k, v in mol.nodes[i].items() if k in NODE_KEYS}
+            if 'rs_isomer' in d:
+                d['rs_isomer'] = d['rs_isomer'][0]
+            nodes.append(d)
+        out['full'] = {'nodes': nodes, 'edges': [[u, v, d['order']] for u, v, d in mol.edges(data=True)]}
+    except Exception as exc:
+        out['full'] = {'exc': type(exc).__name__}
+    finally:
+        prs.fill_valence = saved
+    return out
+
+
 class C13(common.Prop):
     id = 'C13'
     level = 'proof'
@@ -339,7 +413,7 @@ class C13(common.Prop):
     vo_deps = ['theories/Frag/StripCheck.vo']
     prop_file = 'theories/Properties/C13.v'
     case_requires = ('From Coq Require Import String.\nFrom Coq Require Import List Ascii ZArith Bool.\n'
-                     'From CGV Require Import Base.PyBase Base.PyVal Frag.NDict Frag.StripImpl Frag.FragText Frag.StripCheck.')
+                     'From CGV Require Import Base.PyBase Base.PyVal Frag.NDict Frag.StripImpl Frag.FragText Frag.SmilesParse Frag.StripCheck.')
     quick_cases = 2400
     thorough_cases = 40000
     extended_cases = 12000
@@ -393,6 +467,13 @@ class C13(common.Prop):
                  '/C', 'H[H]C', 'C1%', 'C%1%2', '[$]', '[$]=', '=[$][$]C', 'C|2[$]', 'Si', 'CSi', 'NaCl', '[C;w=1;w=2]']]
         out += [{'kind': 'ring', 'rest': r, 'token': t, 'nc': 7} for t, r in
                 [('1', ''), ('%', '12'), ('1', '2'), ('%', '1%2'), ('%', ''), ('1', '%23a'), ('%', '%1'), ('%', '1a')]]
+        out += [{'kind': 'smiles', 'text': t} for t in
+                ['C', 'CC', 'C=C', 'c1ccccc1', 'C1CC1', 'C=1CC=1', 'C=1CC#1', 'C1C1', 'CC1', 'C11', 'C(C)(C)C', 'C(C)1CC1',
+                 'F/C=C/F', '/C', 'C%12CC%12', 'C%1', 'C%', 'C%1a', 'C% 1CC1', 'C%+1CC1', '[', '[C', 'C)', '(C)', '1C',
+                 'C==C', 'C=', '=CC', '[NH3+]', '[13CH4]', '[C@@H](F)(Cl)Br', '[nH]1cccc1', '[se]', '[as]', '[HH]',
+                 '[H+]', '[Fe+2]', '[O--]', '[C+-]', '[CH23]', '[C:12]', '[*]', '*', 'C.C', 'C$C', 'c:c', 'cC', 'cc',
+                 'Cl', 'ClC', 'CBr', 'Clc', 'C l', 'HC', 'C|2', 'CSi', '[Si]', 'C(=O)O', 'C1CC=1', 'C%05CC5', 'C(C1)C1',
+                 'C1CC1C1CC1', 'C12CC1C2', '']]
         out += [{'kind': 'split', 'text': t} for t in
                 ['{#A=[$]CC[$],#B=[$]OC}', '{#A=CC}', '{}', '{#A}', '{#A=C=C,#B=[C;x=R]}', '', '{', '{#A=C,}']]
         return out
@@ -402,11 +483,41 @@ class C13(common.Prop):
         toks = Builder(rng, coarse).build()
         return judged(toks, rand_decor(rng, toks))
 
+    def gen_smiles(self, rng):
+        """texts for the pysmiles model: clean renders of generated fragments (with and without slash
+        marks), richer bracket atoms, and mutated texts for the error paths"""
+        toks = Builder(rng, False).build()
+        keep = rng.random() < 0.5
+        parts = []
+        for t in toks:
+            if t[0] == 'K' and rng.random() < 0.6:
+                parts.append(rand_bracket_text(rng))
+            else:
+                parts.append(smiles_tok(t, keep))
+        text = ''.join(parts)
+        r = rng.random()
+        if r < 0.35:
+            for _ in range(rng.choice([1, 1, 2])):
+                p = rng.randint(0, len(text))
+                q = rng.random()
+                if q < 0.4 and text:
+                    text = text[:p] + text[p + 1:]
+                elif q < 0.8:
+                    text = text[:p] + rng.choice(SM_ALPHABET) + text[p:]
+                elif text:
+                    text = text[:p] + rng.choice(SM_ALPHABET) + text[p + 1:]
+        elif r < 0.4:
+            text = ''.join(rng.choice(SM_ALPHABET) for _ in range(rng.randint(0, 8)))
+        return {'kind': 'smiles', 'text': text}
+
     def generate(self, ctx, n):
         rng = ctx.rng
         ring_on, split_on = self.helpers_enabled(ctx)
         out = []
         for _ in range(n):
+            if rng.random() < 0.3:
+                out.append(self.gen_smiles(rng))
+                continue
             r = rng.random()
             if (r >= 0.92 and r < 0.96 and not ring_on) or (r >= 0.96 and not split_on):
                 r = rng.random() * 0.92
@@ -450,6 +561,8 @@ class C13(common.Prop):
                         'rings': [[k, list(v)] for k, v in rings.items()]}
             except Exception as exc:
                 return {'exc': type(exc).__name__}
+        if case['kind'] == 'smiles':
+            return run_pysmiles(case['text'])
         if case['kind'] == 'split':
             saved = (rf.strip_bonding_descriptors, rf.read_fragment_smiles)
             seen = []
@@ -491,6 +604,22 @@ class C13(common.Prop):
         return '{| d_kind := %s; d_label := %s; d_sym := %s |}' % (lit.ch(d[0]), lit.s(d[1]), lit.opt(d[2], lambda x: BSYM[x]))
 
     def coq_case(self, case, impl):
+        if case['kind'] == 'smiles':
+            b, f = impl['base'], impl['full']
+            if 'exc' in b:
+                base = '(SBErr %s)' % lit.s(b['exc'])
+            else:
+                base = '(SBOk (%s, %s, %s))' % (
+                    lit.lst([lit.s(a) for a in b['atoms']]),
+                    lit.lst(['(%s, %s, %s)' % (lit.nat(u), lit.nat(v), lit.opt(c, lit.ch)) for u, v, c in b['edges']]),
+                    lit.lst([lit.pair(lit.opt(k, lit.nat), lit.ch(v)) for k, v in b['ez']]))
+            if 'exc' in f:
+                full = '(SFErr %s)' % lit.s(f['exc'])
+            else:
+                full = '(SFOk %s %s)' % (
+                    lit.lst([lit.attrs(d) for d in f['nodes']]),
+                    lit.lst(['(%s, %s, %s)' % (lit.nat(u), lit.nat(v), lit.pyval(o)) for u, v, o in f['edges']]))
+            return '(CSmiles %s %s %s)' % (lit.s(case['text']), base, full)
         if case['kind'] == 'ring' and 'exc' in impl:      # the model never returns an empty partial_str: a mismatch
             return '(CRing %s %s %s ([], None, [], []))' % (lit.s(case['rest']), lit.ch(case['token']), lit.nat(case['nc']))
         if case['kind'] == 'split' and 'exc' in impl:     # the model never returns an empty list: a mismatch
@@ -564,6 +693,8 @@ class C13(common.Prop):
         return bool(case.get('judge')) and (any(case['decor']['after']) or bool(case['decor']['lead']))
 
     def case_class(self, case, impl):
+        if case['kind'] == 'smiles':
+            return 'pysmiles:' + (impl['full'].get('exc') or 'graph')
         if case['kind'] != 'strip':
             return 'helper:' + case['kind']
         if not case.get('judge'):
